@@ -150,7 +150,7 @@ int main(void) {
         while (n > 0 && (line[n-1] == '\n' || line[n-1] == '\r')) line[--n] = 0;
         tok = strtok_r(line, " ", &save);
         OUTLEN = 0; out_reserve(16);
-        if (!tok) { puts(""); continue; }
+        if (!tok) { puts(""); fflush(stdout); continue; }
         op = find_op(tok);
         NA = 0;
         while ((tok = strtok_r(NULL, " ", &save)) != NULL && NA < MAXARGS) {
@@ -166,7 +166,7 @@ int main(void) {
         else op->fn();
         if (g_ill) { out_reserve(32); out_sep(); OUTLEN += sprintf(OUT + OUTLEN, "ILL%ld", g_ill); }
         if (g_err) { out_reserve(32); out_sep(); OUTLEN += sprintf(OUT + OUTLEN, "ERR%ld", g_err); }
-        OUT[OUTLEN] = 0; puts(OUT);
+        OUT[OUTLEN] = 0; puts(OUT); fflush(stdout);
         for (i = 0; i < NA; i++) A[i].kind = 0;
     }
     fflush(stdout);
